@@ -16,6 +16,7 @@ import (
 	"strings"
 	"sync"
 	"testing"
+	"time"
 
 	"github.com/tikv/pd/server"
 	"go.etcd.io/etcd/clientv3"
@@ -36,7 +37,7 @@ func TestProp(t *testing.T)   { vkit.RunAll(t) }
 func TestReplay(t *testing.T) { vkit.RunReplay(t) }
 
 func init() {
-	vkit.Register("clusterid", vkit.N{Quick: 4000, Thorough: 100000}, genID, runID)
+	vkit.Register("clusterid", vkit.N{Quick: 3200, Thorough: 100000}, genID, runID)
 	vkit.Register("bootstrap", bootstrapN, genBoot, runBoot)
 }
 
@@ -363,13 +364,22 @@ func runID(c IDCase) (vkit.Info, error) {
 			w.mu.Unlock()
 			if st.Mode == "gate" {
 				sc := gate.New()
+				sc.Watchdog = 20 * time.Second
 				w.sched = sc
+				var wg sync.WaitGroup
 				for i, cl := range st.Calls {
 					i, cl := i, cl
-					sc.Go(i+1, func() { results[i] = w.oneCall(sl, cl) })
+					wg.Add(1)
+					sc.Go(i+1, func() {
+						defer wg.Done()
+						results[i] = w.oneCall(sl, cl)
+					})
 				}
 				ok := sc.Run(st.Sched, nil)
 				sc.Disable()
+				// never leave a member running into the next case (after a watchdog abort the
+				// released calls still finish: each is bounded by its own request timeout)
+				wg.Wait()
 				w.sched = nil
 				if !ok {
 					info.Inconclusive = true
